@@ -10,6 +10,7 @@
 package main
 
 import (
+	"time"
 	"context"
 	"fmt"
 	"strings"
@@ -790,6 +791,7 @@ func main() {
 	vlib.Main(vlib.Spec{
 		ID:    "C11",
 		Level: "model_checking",
+		CaseTimeout: 30 * time.Minute,
 		Rule:  "programs = all valid assignments of operation sequences (15-op alphabet: PipelineSend/PipelineRecv on paths [0] and [1,0], Future.Client() incl. repeated requests for the same path, calls through saved pipelined clients, Fulfill, Reject, Join(Q), Q.Fulfill/Reject/Send, ReleaseClients, Struct) to 1-3 symmetric threads, followed by a fixed epilogue (resolve what is unresolved, ReleaseClients on both promises, release the result message's capability table); for each program all schedules of the real answer.go/capability.go up to the preemption bound. Non-trivial = more than one schedule or outcome. states = sum over programs of distinct scheduling configurations; transitions = scheduling steps; traces = executions on the implementation.",
 		Assumptions: []string{
 			"scheduling points at every sync operation are sufficient (data-race freedom checked separately by a free-running -race pass, which decides nothing)",
